@@ -329,7 +329,8 @@ def scale_free_cleanup(ctx, rule):
                        obj.attrs.get('_Box__reciprocal_vects') is None and equal(given, M, deep=False), node=st, key='setter cache %s' % stag)
     # the reciprocal cache is reset whenever the vectors are set, however little they changed and whatever their scale (a nearly equal cell is another cell)
     for tag, oldM, newM in (('a cell stretched by one part in ten million', [[x_ for x_ in row] for row in base], [[x_ * (1 + R(1, 10 ** 7)) for x_ in row] for row in base]),
-                            ('a cell in metres doubled in size', [[x_ * R(1, 10 ** 10) for x_ in row] for row in base], [[x_ * R(2, 10 ** 10) for x_ in row] for row in base])):
+                            ('a cell in metres doubled in size', [[x_ * R(1, 10 ** 10) for x_ in row] for row in base], [[x_ * R(2, 10 ** 10) for x_ in row] for row in base]),
+                            ('a cell without a single zero component (arbitrarily oriented)', [[3, 1, 2], [-1, 4, 1], [1, -2, 5]], [[2, 1, 3], [-1, 5, 1], [1, -2, 4]])):
         obj = SymObj(cls, {'_Box__vects': np.array(oldM, dtype=object), '_Box__origin': arr([0, 0, 0]), '_Box__reciprocal_vects': 'STALE'}, 'self')
         ev = SymEval(module_aliases(ctx.mod(BOX)))
         try:
